@@ -17,6 +17,10 @@
  * trace letters: C clock read, Y yield entered, b attempt failed (busy), g attempt succeeded.
  * Clock stream: the scripted readings, then FAR = (INT64_MAX, 999999999) for ever; an operation that
  * asks for reading number len+3 (0-based) is abandoned (longjmp) and reported as "ret=none trace=…".
+ * hold=SCRIPT: a second thread does one step per scheduling turn (h = trylock if it does not hold the
+ * mutex, r = unlock if it does, - = nothing; step 0 before the call); k=K: the target yields K times
+ * and returns.  bg=K: K extra threads that only count their turns (prog) and yield.
+ * An operation that does not finish within 30 s of real time ends the process: "HANG", exit code 3.
  */
 #include <stdio.h>
 #include <stdlib.h>
